@@ -95,6 +95,7 @@ pub mod strshim {
 //@end
 
 //@extract se::XmlName | src/se/mod.rs :: struct XmlName | serves=C13 features=serialize
+ #[derive(Clone, Copy)]
  pub struct XmlName<'n>(pub &'n str);
 //@end
 
